@@ -78,6 +78,9 @@ def run_share(pid, tier, count, nconn=6, race=True):
     messages; every connection's own trace is validated against WSWriter; optionally under the race detector."""
     from . import writer
     seed = core.seed()
+    core.build_driver()
+    if race:
+        core.build_driver(race=True)
     q = tier == "quick"
     progs = []
     states = trans = 0
